@@ -345,6 +345,7 @@ fn ops_iterator_add_global_then_imported() {
         p += 1;
     }
     assert!(found, "C07: the GlobalID returned by add_imported_global does not designate the added import (iterator-level additions are not counted)");
+    assert!(m.globals.recalculate_ids, "C07: an import was appended behind a local global but re-indexing is not requested: at encoding the import section puts it first while the index space keeps it last");
     kani::cover!(true, "reached end");
     std::mem::forget(m);
 }
